@@ -1,9 +1,14 @@
 module verif/mc
 
-go 1.21
+go 1.22.0
+
+toolchain go1.23.5
 
 require github.com/wkhere/bcl v0.0.0
 
-require github.com/mohae/uvarint v0.0.0-20160208145430-c3f9e62bf2b0 // indirect
+require (
+	github.com/mohae/uvarint v0.0.0-20160208145430-c3f9e62bf2b0 // indirect
+	golang.org/x/tools v0.29.0
+)
 
 replace github.com/wkhere/bcl => /repo
